@@ -59,6 +59,7 @@ def write(prop, tier, seed, mod, results, all_viol, wall, partial, n_viol, n_kno
             "outside_claim_paths": getattr(t, "outside", 0),
             "outside_claim_reasons": getattr(t, "outside_reasons", {}),
             "truncated": t.truncated,
+            "partial_by_design": bool(getattr(h, "partial_ok", False)),
             "solver": {k: (round(v, 3) if isinstance(v, float) else v) for k, v in t.stats.items()},
             "wall_s": round(getattr(t, "wall_s", 0.0), 2),
             "obligation_kinds": dict(sorted(t.obl_names.items(), key=lambda kv: -kv[1])[:12]),
